@@ -15,6 +15,7 @@ import (
 	"runtime"
 	"strconv"
 	"strings"
+	"unicode"
 
 	"golang.org/x/tools/go/ssa"
 )
@@ -47,6 +48,7 @@ var hostFuncs = map[string]interface{}{
 	"go/types.NewArray":         types.NewArray,
 	"go/types.NewMap":           types.NewMap,
 	"go/types.NewPointer":       types.NewPointer,
+	"go/types.NewChan":          types.NewChan,
 	"go/types.NewInterfaceType": types.NewInterfaceType,
 	"go/types.NewTuple":         types.NewTuple,
 	"go/types.NewSignatureType": types.NewSignatureType,
@@ -72,8 +74,29 @@ var hostFuncs = map[string]interface{}{
 	"go/constant.MakeFromLiteral": func(lit string, tok token.Token, zero uint) constant.Value {
 		return constant.MakeFromLiteral(lit, tok, zero)
 	},
-	"regexp.MustCompile":  regexp.MustCompile,
-	"go/token.NewFileSet": token.NewFileSet,
+	"regexp.MustCompile": regexp.MustCompile,
+	// pure library functions without a symbolic stub: run natively on concrete arguments only
+	"strings.FieldsFunc":   strings.FieldsFunc,
+	"strings.TrimLeft":     strings.TrimLeft,
+	"strings.TrimRight":    strings.TrimRight,
+	"strings.Trim":         strings.Trim,
+	"strings.ContainsRune": strings.ContainsRune,
+	"strings.ContainsAny":  strings.ContainsAny,
+	"strings.IndexAny":     strings.IndexAny,
+	"strings.IndexRune":    strings.IndexRune,
+	"strings.SplitN":       strings.SplitN,
+	"strings.TrimFunc":     strings.TrimFunc,
+	"strings.IndexFunc":    strings.IndexFunc,
+	"strings.Map":          strings.Map,
+	"strings.ToTitle":      strings.ToTitle,
+	"strings.Compare":      strings.Compare,
+	"strconv.Atoi":         strconv.Atoi,
+	"strconv.FormatInt":    strconv.FormatInt,
+	"strconv.ParseInt":     strconv.ParseInt,
+	"strconv.Unquote":      strconv.Unquote,
+	"unicode.IsSpace":      unicode.IsSpace,
+	"unicode.IsPunct":      unicode.IsPunct,
+	"go/token.NewFileSet":  token.NewFileSet,
 }
 
 var hostGlobals = map[string]interface{}{
@@ -508,6 +531,13 @@ func (p *path) hostCall(fn *ssa.Function, args []value) (value, bool) {
 	}
 	name := fn.String()
 	if f, ok := hostFuncs[name]; ok {
+		if strings.HasPrefix(name, "strings.") || strings.HasPrefix(name, "strconv.") || strings.HasPrefix(name, "unicode.") {
+			for _, a := range args {
+				if !p.fullyConcrete(a) {
+					p.unsupported(name + " on a symbolic argument (no symbolic stub)")
+				}
+			}
+		}
 		p.stubs[name+" (native)"] = true
 		return p.callNative(reflect.ValueOf(f), args, name), true
 	}
@@ -593,4 +623,22 @@ func (hf hostFunc) call(p *path, args []value) value {
 	}
 	p.stubs[full+" (native)"] = true
 	return p.callNative(m, args, full)
+}
+
+func (p *path) fullyConcrete(v value) bool {
+	switch v := v.(type) {
+	case Str:
+		return v.IsConcrete()
+	case *Term:
+		return v.IsConst()
+	case []value:
+		for _, x := range v {
+			if !p.fullyConcrete(x) {
+				return false
+			}
+		}
+	case iface:
+		return v.t == nil || p.fullyConcrete(v.v)
+	}
+	return true
 }
